@@ -262,7 +262,12 @@ def rewriter_rules(ctx, rule, fi, nfields_src, offsets_name, minmax, src_handles
         assert isinstance(rep, Repeat) and rep.count == "2", "first block is not `for i in range(2)`"
         reads = [l for l in rep.body if l.tokens is None]
         writes = [l for l in rep.body if l.tokens is not None]
-        assert len(writes) == 1 and writes[0].copy_of == h0 and len([r for r in reads if h0 in norm(r.node)]) == 1, \
+        # `l = src.readline(); w.write(l)` or `w.write(src.readline())`: exactly one line of the source per line written
+        n_src_reads = len([c for l in rep.body for c in ast.walk(l.node if isinstance(l.node, ast.AST) else ast.Pass())
+                           if isinstance(c, ast.Call) and norm(c.func) == f"{h0}.readline"]) if False else \
+            len({id(c) for st in rep.node.body for c in ast.walk(st)
+                 if isinstance(c, ast.Call) and norm(c.func) == f"{h0}.readline"})
+        assert len(writes) == 1 and writes[0].copy_of == h0 and n_src_reads == 1, \
             "the first two lines are not copied one-for-one from the first source"
         for h in src_handles[1:]:
             assert len([r for r in reads if norm(r.node.func.value) == h]) == 1, f"{h} is not advanced in lock-step (first two lines)"
@@ -311,15 +316,54 @@ def rewriter_rules(ctx, rule, fi, nfields_src, offsets_name, minmax, src_handles
 
 
 def _fab_line_rule(fi, offsets_name):
-    """new_l = l.split()[:-1]; new_l.append(str(X)); write(' '.join(new_l) + '\n') with X = offsets[0] / loop var over offsets[1:]"""
-    pairs = []
-    for n in walk_no_nested(fi.node):
-        if isinstance(n, ast.Expr) and isinstance(n.value, ast.Call) and norm(n.value.func) == "new_l.append":
-            pairs.append(norm(n.value.args[0]))
-    base = [norm(n.value) for n in walk_no_nested(fi.node) if isinstance(n, ast.Assign) and norm(n.targets[0]) == "new_l"]
+    """V = L.split()[:-1]; V.append(str(X)); write(' '.join(V) + '\n') with X = offsets[0] for the first FabOnDisk line
+    and the loop variable over offsets[1:] for the others; V and L may have any name, L is the line just read"""
     loopvars = [norm(n.target) for n in walk_no_nested(fi.node) if isinstance(n, ast.For)
                 and norm(n.iter) == f"{offsets_name}[1:]"]
-    if len(pairs) != 2 or len(loopvars) != 1:
+    if len(loopvars) != 1:
         return False
-    return pairs[0] == f"str({offsets_name}[0])" and pairs[1] == f"str({loopvars[0]})" and \
-        base == ["l.split()[:-1]", "l.split()[:-1]"]
+    got = []
+    for blk in _blocks(fi.node):
+        for i, n in enumerate(blk):
+            if not (isinstance(n, ast.Expr) and isinstance(n.value, ast.Call) and isinstance(n.value.func, ast.Attribute)
+                    and n.value.func.attr == "append" and isinstance(n.value.func.value, ast.Name)
+                    and len(n.value.args) == 1):
+                continue
+            v = n.value.func.value.id
+            # nearest preceding binding of v in the block, nearest following write
+            base = None
+            for m in reversed(blk[:i]):
+                if isinstance(m, ast.Assign) and norm(m.targets[0]) == v:
+                    base = m.value
+                    break
+            wr = None
+            for m in blk[i + 1:]:
+                if isinstance(m, ast.Expr) and isinstance(m.value, ast.Call) and isinstance(m.value.func, ast.Attribute) \
+                        and m.value.func.attr == "write":
+                    wr = m.value
+                    break
+            if base is None or wr is None:
+                continue
+            mt = re.fullmatch(r"(\w+)\.split\(\)\[:-1\]", norm(base))
+            if not mt:
+                continue
+            line = mt.group(1)
+            # the line variable is the line most recently read from a source
+            src = None
+            for blk2 in _blocks(fi.node):
+                for m in blk2:
+                    if isinstance(m, ast.Assign) and norm(m.targets[0]) == line and norm(m.value).endswith(".readline()"):
+                        src = m
+            if src is None or len(wr.args) != 1 or norm(wr.args[0]) not in (f"' '.join({v}) + '\\n'",):
+                continue
+            got.append((n.lineno, norm(n.value.args[0])))
+    got = [t for _, t in sorted(got)]
+    return got == [f"str({offsets_name}[0])", f"str({loopvars[0]})"]
+
+
+def _blocks(node):
+    for x in ast.walk(node):
+        for fld in ("body", "orelse", "finalbody"):
+            b = getattr(x, fld, None)
+            if isinstance(b, list) and b and isinstance(b[0], ast.stmt):
+                yield b
